@@ -106,7 +106,7 @@ def check_name(ctx, case):
         ctx.fail('%s:raises-%s' % (tag, type(e).__name__), '%r raises %s: %s' % (text, type(e).__name__, e))
         return
     if resolved == 'exact':
-        compare(ctx, text, res, model, case, 'unit-definition:%s' % text)
+        ok = compare(ctx, text, res, model, case, 'unit-definition:%s' % text)
     else:
         # a wrong base unit is reported under its own name once; here only the prefix matters
         base = U.UNITS[text[len(case['prefix']):]] if case.get('prefix') else None
@@ -118,7 +118,32 @@ def check_name(ctx, case):
                 return
         except Exception:
             return
-        compare(ctx, text, res, model, case, 'prefix:%s' % case['prefix'])
+        ok = compare(ctx, text, res, model, case, 'prefix:%s' % case['prefix'])
+    if not ok or model.dimensionless():
+        return
+    # what a caller does with the returned quantity (augmented arithmetic on its own variable) is the caller's business:
+    # the name means the same afterwards
+    q = res
+    try:
+        q *= 3.0
+        q /= 7
+        q += q
+        q -= 0.25 * q
+        q **= 2
+    except Exception as e:
+        ctx.fail('augmented-arithmetic-raises:%s' % type(e).__name__, 'q = eval_qty(%r); q *= 3.0; q /= 7; q += q; q -= 0.25*q; q **= 2 raised %s: %s' % (text, type(e).__name__, e))
+        return
+    ctx.count()
+    try:
+        again = m['eval_qty'](text)
+    except Exception as e:
+        ctx.fail('name-changed-by-callers-arithmetic:raises', '%r raises %s after augmented arithmetic on the quantity it returned before' % (text, type(e).__name__))
+        return
+    b = unpack(again)
+    v0, e0 = float(model.v), [float(x) for x in model.d]
+    if b[1] is None or any(abs(x - y) > 1e-9 for x, y in zip(b[1], e0)) or abs(b[0] - v0) > 1e-9 * abs(v0):
+        ctx.fail('name-changed-by-callers-arithmetic', 'eval_qty(%r) = %r after q = eval_qty(%r); q *= 3.0; q /= 7; ...: SI value %r exponents %s expected'
+                 % (text, again, text, v0, e0))
 
 
 def enum_names_history(tier):
